@@ -8,6 +8,7 @@ Declined: ≤ 2·W1, triangle inequality, diagonal-point insensitivity, quadratu
 """
 from __future__ import annotations
 
+import ast
 from ..core import facets, sym, symeval
 from ..core.absint import Config, Interp
 from ..core.loader import Project
@@ -32,6 +33,43 @@ def _row_iv(e, name):
     return None
 
 
+def check_empty_side(project: Project, rep):
+    """SW-EMPTY — the empty diagram is a legitimate argument (its distance to F is the cost of sending F to the diagonal):
+    `sliced_wasserstein` is evaluated with an empty second / first diagram and must return a value, not raise.  Refute-only
+    probe: a raise that is certain on an exactly followed run is reported; a run that is not followed exactly is recorded as
+    a note (the other clauses do not depend on it)."""
+    from ..core.values import Arr, fix, fresh
+    fi = project.function(SW)
+    ps = fi.params
+    for side in (1, 0):
+        I = Interp(project, Config(nonempty={("rows", "F")}, finite_inputs={"F"}))
+        E = Arr([(fix(0), fresh()), (fix(2), fresh())], sym.Opq("empty", ()), "nd")
+        F = dgm_input("F")
+        args = {ps[0]: F if side == 1 else E, ps[1]: E if side == 1 else F}
+        if len(ps) > 2:
+            args[ps[2]] = Sc(sym.Sym("M"))
+        what = "sliced_wasserstein(F, ∅)" if side == 1 else "sliced_wasserstein(∅, F)"
+        try:
+            r = I.run(SW, args)
+        except Exception as ex:
+            rep.note(f"SW-EMPTY {what}: could not be followed ({type(ex).__name__})")
+            continue
+        exact = not I.unmodelled and not I.lossy
+        raises = [ev for ev in I.log if ev["kind"] == "raise" and not ev.get("propagated")]
+        certain = [ev for ev in raises if all(I.decide(c) is True for c in ev["path"])]
+        returned = [ev for ev in I.log if ev["kind"] == "return" and ev["fi"] is fi]
+        if exact and certain and not returned:
+            ev = certain[0]
+            rep.refuted("SW-EMPTY", ev["fi"] or fi, ev["node"],
+                        f"{what} raises (`{ast.unparse(ev['node'])[:70]}` is reached on every run with an empty diagram): the distance "
+                        f"to the empty diagram is the cost of sending the other diagram to the diagonal, not an error",
+                        construct=f"{SW}: one empty diagram raises")
+        elif exact and not raises and isinstance(r, Sc):
+            rep.discharged("SW-EMPTY", fi, fi.node, f"{what} returns a value; no raise is reachable")
+        else:
+            rep.note(f"SW-EMPTY {what}: not followed exactly / a conditional raise — no verdict")
+
+
 def run(project: Project, rep, tier: str):
     rep.explain(
         "C15 (clauses decided): `sliced_wasserstein` is evaluated symbolically on two generic diagrams with a symbolic "
@@ -46,6 +84,7 @@ def run(project: Project, rep, tier: str):
                "the 1-D optimal transport cost of equal-size samples")
     fi = project.function(SW)
     rep.analysed(fi)
+    check_empty_side(project, rep)
     # SW-DTYPE: 'equals the averaged 1-D transport cost' is a statement about the numbers in the diagram, not their numpy
     # dtype: projections (floats) must not be stored into an array that inherits the caller's dtype (int diagrams truncate)
     import ast as _ast
